@@ -1,24 +1,27 @@
 ----------------------------- MODULE TraceCompile ---------------------------
 (* C03/C01/C09 code -> spec (drift level): the rules lark really compiled for a grammar written in EBNF (Lark.rules: origin,
-   expansion, alias, options) against Compiled(G) of Compile.tla for the same grammar - helper names included - restricted to
-   the rules the start symbol reaches (lark prunes the others).
+   expansion, alias, options) against Compiled(G) of Compile.tla for the same grammar - helper names included - after
+   lark's pruning of unused rules.
    case: G (the AST EBNF.tla reads), real: Seq([origin, rhs, alias, expand1, keepall, empty, fo (filter_out per symbol)]) *)
 EXTENDS Compile, TraceBase
 VARIABLES tid, verdict
 Proj(r) == [origin |-> r.origin, rhs |-> r.rhs, alias |-> r.alias, expand1 |-> r.expand1, keepall |-> r.keepall, empty |-> r.empty,
             \* inside a ! / keep_all_tokens rule lark clears filter_out; the specification keeps the flag and lets keepall decide
             fo |-> [q \in DOMAIN r.syms |-> r.syms[q].filter_out /\ ~r.keepall]]
-RECURSIVE ReachNames(_, _)
-ReachNames(cg, S) ==
-  LET S2 == S \cup UNION {{cg[r].rhs[q] : q \in DOMAIN cg[r].rhs} : r \in {x \in DOMAIN cg : cg[x].origin \in S}}
-  IN IF S2 = S THEN S ELSE ReachNames(cg, S2)
+\* Grammar.compile "filters out unused rules": not by reachability from the start symbol but, repeatedly, every rule whose
+\* origin is neither a start symbol nor mentioned in the expansion of a rule of ANOTHER origin (two rules that only use each
+\* other survive)
+RECURSIVE Pruned(_, _)
+Pruned(rs, start) ==
+  LET used == {start} \cup UNION {{r.rhs[q] : q \in {x \in DOMAIN r.rhs : r.rhs[x] # r.origin}} : r \in rs}
+      keep == {r \in rs : r.origin \in used}
+  IN IF keep = rs THEN rs ELSE Pruned(keep, start)
 Init == tid \in 1..NCases /\ verdict = "start"
 Next ==
   /\ verdict = "start"
   /\ LET c == Cases[tid]
          cg == Compiled(c.G)
-         live == ReachNames(cg, {c.G.start})
-         want == {Proj(cg[r]) : r \in {x \in DOMAIN cg : cg[x].origin \in live}}
+         want == {Proj(r) : r \in Pruned({cg[x] : x \in DOMAIN cg}, c.G.start)}
          got == {[origin |-> c.real[i].origin, rhs |-> c.real[i].rhs, alias |-> c.real[i].alias, expand1 |-> c.real[i].expand1,
                   keepall |-> c.real[i].keepall, empty |-> c.real[i].empty, fo |-> c.real[i].fo] : i \in DOMAIN c.real}
          v == IF got = want THEN "ok"
